@@ -79,7 +79,8 @@ func execC08Real(a c08RealArgs) CaseOut {
 		return out
 	}
 	payload := []byte(strings.ReplaceAll(string(a.Bytes), c08UnitPlaceholder, unitID))
-	cc.c.SetDeadline(time.Now().Add(30 * time.Second))
+	// (cancelling the running `long` unit alone takes the runner's 10 s grace period; the machine may be busy)
+	cc.c.SetDeadline(time.Now().Add(120 * time.Second))
 	_, werr := cc.c.Write(payload)
 	open := werr == nil
 	switch a.Then {
@@ -111,7 +112,7 @@ func execC08Real(a c08RealArgs) CaseOut {
 	}
 	if open && a.Expect != "any" {
 		// same session: skip leftover ERROR lines (malformed JSON is answered with two)
-		cc.c.SetDeadline(time.Now().Add(20 * time.Second))
+		cc.c.SetDeadline(time.Now().Add(60 * time.Second))
 		if _, err := cc.c.Write([]byte("status\n")); err == nil {
 			line, err := cc.r.ReadString('\n')
 			for i := 0; i < 2 && err == nil && strings.HasPrefix(line, "ERROR"); i++ {
@@ -137,10 +138,10 @@ func execC08Real(a c08RealArgs) CaseOut {
 		out.violate(key, "%s: the daemon process is gone; log: %s", ctx, trunc(log, 600))
 		return out
 	}
-	if line, err := d.ask("status", 20*time.Second); err != nil || !strings.HasPrefix(line, "{") {
+	if line, err := d.ask("status", 60*time.Second); err != nil || !strings.HasPrefix(line, "{") {
 		out.violate("ctl:fresh-session-dead:"+a.Class, "%s: a fresh connection does not answer `status` (%q, %v)", ctx, trunc(line, 80), err)
 	}
-	if line, err := d.ask("work list", 20*time.Second); err != nil || !strings.HasPrefix(line, "{") {
+	if line, err := d.ask("work list", 60*time.Second); err != nil || !strings.HasPrefix(line, "{") {
 		out.violate("ctl:work-list-dead:"+a.Class, "%s: a fresh connection does not answer `work list` (%q, %v)", ctx, trunc(line, 80), err)
 	}
 	rs := "none"
